@@ -80,59 +80,4 @@ Observe(m, t) == UpdateTime(m, t)
 \* what the debug report shows
 Projection(m) == [st |-> [k \in Keys |-> m.cache[k].st], uses |-> [k \in Keys |-> m.cache[k].uses], count |-> m.count]
 
---------------------------------------------------------------------------
-\* the model-checked system (exact ticks)
-CONSTANTS MaxT, Policies, Dts, Depth
-VARIABLES m, hist
-
-Init == m = Fresh(At(0)) /\ hist = <<>>
-
-Tick(dt) == At(m.now.lo + dt)
-Step(op, results) == /\ Len(hist) < Depth /\ m' \in results /\ hist' = Append(hist, op)
-
-Next ==
-  \E dt \in Dts :
-     /\ m.now.lo + dt <= MaxT
-     /\ \/ \E S \in (SUBSET Keys) \ {{}} : Step([op |-> "check", dt |-> dt, keys |-> S], Check(m, Tick(dt), S))
-        \/ \E p \in Policies : p # m.policy /\ Step([op |-> "policy", dt |-> dt, interval |-> p.interval, unused |-> p.unused], SetPolicy(m, Tick(dt), p))
-        \/ \E k \in Keys : m.cache[k].st = "compiled" /\ Step([op |-> "discard", dt |-> dt, key |-> k], Discard(m, Tick(dt), k))
-        \/ (\E k \in Keys : m.cache[k].st # "absent") /\ Step([op |-> "retag", dt |-> dt], Clear(m, Tick(dt)))
-        \/ Step([op |-> "obs", dt |-> dt], Observe(m, Tick(dt)))
-
-vars == <<m, hist>>
-MCPolicies == {[interval |-> 0, unused |-> 1], [interval |-> 1, unused |-> 2], [interval |-> 3, unused |-> 1],
-               [interval |-> 1, unused |-> 0], [interval |-> 2, unused |-> 4]}
-MCView == m
-Bounded == m.count <= 5 /\ \A k \in Keys : m.cache[k].uses <= 3
-
-\* ---- properties of the design
-TypeOK ==
-  /\ \A k \in Keys : /\ m.cache[k].st \in {"absent", "compiled", "discarded"}
-                     /\ (m.cache[k].st = "absent") = (m.cache[k].uses = 0)
-                     /\ m.cache[k].last.hi <= m.now.lo
-  /\ m.lastCleanup.hi <= m.now.lo
-  /\ Cardinality({k \in Keys : m.cache[k].st = "compiled"}) <= m.count
-
-\* a regex that a query has just used is compiled when the query reads it (the implementation unwraps it)
-UsedIsCompiled ==
-  [][(Len(hist') > Len(hist) /\ hist'[Len(hist')].op = "check")
-        => \A k \in hist'[Len(hist')].keys : m'.cache[k].st = "compiled" /\ m'.cache[k].last = m'.now]_vars
-
-\* counters only grow, except that emptying the cache forgets use counts
-Monotone ==
-  [][/\ m'.count >= m.count
-     /\ m'.now.lo >= m.now.lo
-     /\ (Len(hist') > Len(hist) /\ hist'[Len(hist')].op # "retag") => \A k \in Keys : m'.cache[k].uses >= m.cache[k].uses]_vars
-
-\* a cleanup (recognisable by lastCleanup moving) leaves no compiled regex that has been idle for the
-\* discard time of the policy in force when it ran
-CleanupIsThorough ==
-  [][m'.lastCleanup # m.lastCleanup
-        => \A k \in Keys : m'.cache[k].st = "compiled"
-              => m'.now.lo - m'.cache[k].last.lo < m.policy.unused \/ m'.cache[k].last = m'.now]_vars
-
-\* with cleaning switched off nothing is ever discarded behind the caller's back
-NoCleanupWhenOff ==
-  [][(m.policy.interval = 0 /\ Len(hist') > Len(hist) /\ hist'[Len(hist')].op \in {"check", "obs", "policy"})
-        => \A k \in Keys : m.cache[k].st = "compiled" => m'.cache[k].st = "compiled"]_vars
 =============================================================================
